@@ -7,7 +7,7 @@ alone: each initiator's adr carries its index in the low bits.
 import random
 
 from vmon import env  # noqa: F401
-from vmon.simkit import Top, Mon, Stop, simulate, bits, biased_bits
+from vmon.simkit import Top, Mon, Stop, simulate, bits, biased_bits, spell_features
 
 from amaranth import Value
 from amaranth_soc import wishbone
@@ -84,7 +84,7 @@ def run_arb_case(case, judged):
         return t
 
     decoy(rng, twin)
-    arb = wishbone.Arbiter(addr_width=aw, data_width=dw, granularity=gran, features=afeat)
+    arb = wishbone.Arbiter(addr_width=aw, data_width=dw, granularity=gran, features=spell_features(rng, afeat))
     intrs = []
     rejected = []
     slots = case.get("slots") or list(range(n))
@@ -97,8 +97,8 @@ def run_arb_case(case, judged):
             except ValueError:
                 slots = [s_ for k_, s_ in enumerate(slots) if k_ != pos_]      # refusing a duplicate is fine too
             continue
-        ib = wishbone.Interface(addr_width=aw, data_width=dw, granularity=d["gran"], features=set(d["features"]),
-                                path=(f"i{i}",))
+        ib = wishbone.Interface(addr_width=aw, data_width=dw, granularity=d["gran"],
+                                features=spell_features(rng, d["features"]), path=(f"i{i}",))
         objs[i] = ib
         if rng.random() < 0.15:
             # an incompatible initiator is refused; the arbiter keeps being used afterwards and the refused
